@@ -3,3 +3,4 @@ pub mod util;
 pub mod c11;
 pub mod codec;
 pub mod c09;
+pub mod c13;
